@@ -81,7 +81,7 @@ enum Ev {
     FinSent { src: usize, dst: usize, id: u64 },
     TcpRecv { id: u64 },
     TcpEof { id: u64 },
-    /// snapshot of Sim::links taken between steps, before controller actions
+    /// snapshot of Sim::links taken between steps, before and right after controller actions
     Links { udp: Vec<(usize, usize, u64)>, tcp_data: Vec<u64>, syns: Vec<(usize, usize)>, other: u32 },
 }
 
@@ -411,10 +411,16 @@ fn scenario(s: Scn, tag: &str) -> ScenarioOut {
                             with_sel!(x, |a| with_sel!(y, |b| sim.release(a, b)))
                         }
                         Act::Deliver(ids) => {
+                            // one pass over Sim::links per delivery, the view is sampled in between:
+                            // a message scheduled by hand stays in flight until the next step
+                            let mut n = 0;
                             for (a, b, q) in ids {
                                 log.push(Ev::Deliver { src: *a, dst: *b, seq: *q });
+                                n += deliver_manual(&sim, &ips, &[(*a, *b, *q)]);
+                                if s.sample_links {
+                                    log.push(snapshot_links(&sim, &ips));
+                                }
                             }
-                            let n = deliver_manual(&sim, &ips, ids);
                             if n != ids.len() {
                                 out.violate(
                                     "links-missing-held-message",
@@ -427,6 +433,11 @@ fn scenario(s: Scn, tag: &str) -> ScenarioOut {
                     }
                 }
             }
+        }
+        if s.sample_links && s.acts.iter().any(|(pl, _)| matches!(pl, Placement::AfterStep(at) if *at == k)) {
+            // the view right after hold / release / manual delivery, before the next step
+            log.push(snapshot_links(&sim, &ips));
+            out.count("links_snapshots_right_after_an_action", 1);
         }
         if k == total {
             break;
@@ -763,6 +774,217 @@ fn scenario(s: Scn, tag: &str) -> ScenarioOut {
     out
 }
 
+
+/// Directed family: a TCP segment for a socket that no longer exists is handed over by hand
+/// while the link is held. The receiving stack answers it itself (RST); that answer is a
+/// message on the held link like any other: it must be listed as in flight, must not reach the
+/// peer while the hold lasts, and must reach it once after the release.
+fn scenario_orphan(seed: u64) -> ScenarioOut {
+    use std::cell::Cell;
+    use std::rc::Rc;
+    use tokio::io::{AsyncReadExt, AsyncWriteExt};
+    let mut out = ScenarioOut::default();
+    let mut r = Rng::new(seed);
+    let tick_ms = r.pick_copy(&[1u64, 1, 2]);
+    let lat_ms = r.pick_copy(&[0u64, 1, 3, 5]);
+    let lat_steps = ceil_steps(lat_ms, tick_ms);
+    let extra_before_hold = r.range(0, 3);
+    let writes_during_hold = r.range(1, 3);
+    let deliver_which = r.below(writes_during_hold);
+    let wait_after_deliver = 2 * lat_steps + r.range(4, 9);
+    let use_regex = r.coin();
+    rec::set_step(0);
+    let mut b = turmoil::Builder::new();
+    b.tick_duration(Duration::from_millis(tick_ms))
+        .epoch(epoch(0))
+        .rng_seed(r.next_u64())
+        .min_message_latency(Duration::from_millis(lat_ms))
+        .max_message_latency(Duration::from_millis(lat_ms))
+        .simulation_duration(Duration::from_secs(1_000_000));
+    let mut sim = b.build();
+    // shared observations (single thread)
+    let saw_eof = Rc::new(Cell::new(false));
+    let go_write = Rc::new(Cell::new(false));
+    let wrote = Rc::new(Cell::new(0u64));
+    let write_err: Rc<Cell<Option<u64>>> = Rc::new(Cell::new(None)); // step of the first failing write
+    {
+        sim.host("h1", || async {
+            let l = TcpListener::bind(("0.0.0.0", 9001)).await?;
+            loop {
+                let (mut st, _) = l.accept().await?;
+                let mut b = [0u8; 8];
+                let _ = st.read_exact(&mut b).await;
+                drop(st); // nothing unread: a graceful close, the socket is gone afterwards
+            }
+        });
+    }
+    {
+        let (saw_eof, go_write, wrote, write_err) = (saw_eof.clone(), go_write.clone(), wrote.clone(), write_err.clone());
+        sim.host("h0", move || {
+            let (saw_eof, go_write, wrote, write_err) = (saw_eof.clone(), go_write.clone(), wrote.clone(), write_err.clone());
+            async move {
+                tokio::time::sleep(Duration::from_millis(2 * tick_ms)).await;
+                let mut st = TcpStream::connect(("h1", 9001)).await?;
+                st.write_all(&7u64.to_le_bytes()).await?;
+                let mut b = [0u8; 8];
+                if let Ok(0) = st.read(&mut b).await {
+                    saw_eof.set(true);
+                }
+                while !go_write.get() {
+                    tokio::time::sleep(Duration::from_millis(1)).await;
+                }
+                let mut n = 0u64;
+                loop {
+                    // records 0x0b00.. are recognisable in Sim::links
+                    let rec_id = 0x0b00_0000_0000_0000u64 | n;
+                    if n < writes_during_hold {
+                        match st.write_all(&rec_id.to_le_bytes()).await {
+                            Ok(()) => wrote.set(n + 1),
+                            Err(_) => {
+                                write_err.set(Some(rec::step()));
+                                break;
+                            }
+                        }
+                        n += 1;
+                    } else if let Err(e) = st.try_write(&[0u8; 1]) {
+                        if e.kind() != std::io::ErrorKind::WouldBlock {
+                            write_err.set(Some(rec::step()));
+                            break;
+                        }
+                    }
+                    tokio::time::sleep(Duration::from_millis(1)).await;
+                }
+                std::future::pending::<()>().await;
+                Ok(())
+            }
+        });
+    }
+    let desc = json!({"family": "orphan-segment", "seed": seed, "tick_ms": tick_ms, "lat_ms": lat_ms, "writes_during_hold": writes_during_hold, "deliver_which": deliver_which});
+    let mut step = |sim: &mut turmoil::Sim<'_>| util::step(sim).is_ok();
+    // phase 1: until the client has seen the server's close
+    let mut k = 0;
+    while !saw_eof.get() && k < 200 {
+        if !step(&mut sim) {
+            out.discarded = Some("step error".into());
+            return out;
+        }
+        k += 1;
+    }
+    if !saw_eof.get() {
+        out.discarded = Some("client never saw the server's close".into());
+        return out;
+    }
+    for _ in 0..extra_before_hold {
+        step(&mut sim);
+    }
+    // phase 2: hold, then the client writes into the held link
+    if use_regex {
+        sim.hold(regex::Regex::new("^h0$").unwrap(), regex::Regex::new("^h1$").unwrap());
+    } else {
+        sim.hold("h0", "h1");
+    }
+    let hold_step = rec::step();
+    go_write.set(true);
+    let mut k = 0;
+    while wrote.get() < writes_during_hold && k < 50 {
+        step(&mut sim);
+        k += 1;
+    }
+    // the view: the records are in flight, held
+    let count = |sim: &turmoil::Sim<'_>| {
+        let (mut recs, mut rsts, mut other_data) = (vec![], 0u32, 0u32);
+        sim.links(|links| {
+            for link in links {
+                for sent in link {
+                    match sent.protocol() {
+                        turmoil::Protocol::Tcp(turmoil::Segment::Data(_, b)) if b.len() == 8 && b[7] == 0x0b => recs.push(u64::from_le_bytes(b[..].try_into().unwrap()) & 0xff),
+                        turmoil::Protocol::Tcp(turmoil::Segment::Rst) => rsts += 1,
+                        turmoil::Protocol::Tcp(turmoil::Segment::Data(..)) => other_data += 1,
+                        _ => {}
+                    }
+                }
+            }
+        });
+        (recs, rsts, other_data)
+    };
+    let (recs, rsts0, _) = count(&sim);
+    if recs.len() as u64 != writes_during_hold || rsts0 != 0 {
+        out.violate(
+            "links-view",
+            "C08|links-view|orphan|before-delivery".to_string(),
+            format!("{} records written into the held link, Sim::links lists records {recs:?} and {rsts0} RSTs", writes_during_hold),
+            desc.clone(),
+        );
+    }
+    // phase 3: hand one record over by hand
+    let mut delivered = 0;
+    sim.links(|links| {
+        for link in links {
+            for sent in link {
+                if let turmoil::Protocol::Tcp(turmoil::Segment::Data(_, b)) = sent.protocol() {
+                    if b.len() == 8 && b[7] == 0x0b && (u64::from_le_bytes(b[..].try_into().unwrap()) & 0xff) == deliver_which {
+                        sent.deliver();
+                        delivered += 1;
+                    }
+                }
+            }
+        }
+    });
+    out.count("orphan_segments_delivered_by_hand", delivered);
+    let deliver_step = rec::step();
+    for _ in 0..wait_after_deliver {
+        step(&mut sim);
+    }
+    // the stack's answer is in flight on the held link and has not reached the client
+    let (recs, rsts, _) = count(&sim);
+    out.count("stack_replies_listed_while_held", rsts as u64);
+    if delivered == 1 && rsts != 1 {
+        out.violate(
+            "links-view",
+            "C08|links-view|orphan|reply-not-listed".to_string(),
+            format!("record {deliver_which} was handed to the closed socket on h1 after step {deliver_step}; {} steps later Sim::links lists {rsts} RST segments on the held link (expected exactly 1, held) and records {recs:?}", wait_after_deliver),
+            desc.clone(),
+        );
+    }
+    if let Some(st) = write_err.get() {
+        out.violate(
+            "delivered-during-hold",
+            "C08|delivered-during-hold|stack-reply".to_string(),
+            format!("link h0<->h1 held since step {hold_step}; a record was handed to the closed socket on h1 after step {deliver_step} and the stack's RST reached h0 by step {st} although the link was still held"),
+            desc.clone(),
+        );
+    } else {
+        out.count("stack_replies_kept_back_by_the_hold", 1);
+    }
+    // phase 4: release: the answer arrives, once
+    sim.release("h0", "h1");
+    let release_step = rec::step();
+    let mut k = 0;
+    while write_err.get().map(|s| s <= release_step).unwrap_or(true) && k < lat_steps + 6 {
+        step(&mut sim);
+        k += 1;
+    }
+    match write_err.get() {
+        Some(st) if st > release_step => out.count("stack_replies_delivered_after_release", 1),
+        Some(_) => {}
+        None => out.violate(
+            "held-message-lost",
+            "C08|held-message-lost|stack-reply".to_string(),
+            format!("the RST held since the manual delivery (step {deliver_step}) did not reach h0 within {} steps after the release at step {release_step}", lat_steps + 6),
+            desc.clone(),
+        ),
+    }
+    let mut h = Fnv::new();
+    h.write_u64(tick_ms * 100 + lat_ms);
+    h.write_u64(writes_during_hold * 10 + deliver_which);
+    h.write_u64(extra_before_hold * 100 + wait_after_deliver);
+    h.write_u64(use_regex as u64);
+    out.digest = h.finish();
+    out.nontrivial = delivered == 1;
+    out.sample = Some(desc);
+    out
+}
+
 fn base(r: &mut Rng) -> Scn {
     let tick_ms = r.pick_copy(&[1u64, 2, 5]);
     let (min_ms, max_ms) = match r.below(5) {
@@ -915,7 +1137,8 @@ pub fn run(ctx: &Ctx) -> ! {
     let nman = space.len() as u64; // 33 perms + 30 subsets = 63... (n=1: 1+1)
     let reps = ctx.pick(8u64, 60);
     let nrandom = ctx.pick(15_000u64, 300_000);
-    let total = nman * reps + nrandom;
+    let norphan = ctx.pick(150u64, 3000);
+    let total = nman * reps + nrandom + norphan;
     let build = move |c: &Ctx, idx: u64| -> (Scn, String) {
         let seed = c.scenario_seed("c08", idx);
         if idx < nman * reps {
@@ -927,6 +1150,10 @@ pub fn run(ctx: &Ctx) -> ! {
     };
     if ctx.replay.is_some() {
         let w = vcore::read_replay(ctx).expect("replay file");
+        if let Some(seed) = w.get("orphan_seed").and_then(|x| x.as_u64()) {
+            let report = vcore::run_single(ctx, move |_| scenario_orphan(seed));
+            vcore::finish(ctx, report, fin());
+        }
         let idx = w["scenario_index"].as_u64().unwrap_or(0);
         let c2 = ctx.clone();
         let report = vcore::run_single(ctx, move |_| {
@@ -941,6 +1168,14 @@ pub fn run(ctx: &Ctx) -> ! {
         total,
         RunOpts { budget_s: ctx.pick(60.0, 600.0), scenario_timeout_s: 120.0 },
         move |idx| {
+            if idx >= nman * reps + nrandom {
+                let seed = c2.scenario_seed("c08orphan", idx);
+                let mut out = scenario_orphan(seed);
+                for v in out.violations.iter_mut() {
+                    v.witness["orphan_seed"] = json!(seed);
+                }
+                return out;
+            }
             let (s, tag) = build(&c2, idx);
             let mut out = scenario(s, &tag);
             if tag.starts_with("manual") {
@@ -962,13 +1197,13 @@ pub fn run(ctx: &Ctx) -> ! {
 fn fin() -> Finish<'static> {
     Finish {
         level: "exploration",
-        rule: "random scenarios: 2-4 hosts, periodic + burst UDP and TCP connect+record probes per ordered pair, 1-8 hold/release calls by name/regex from the Sim handle between steps or from host code, fixed and ranged latencies; plus every permutation (one manual SentRef::deliver per step) and every subset (one batch) of <=4 held datagrams; Sim::links snapshot before every between-step point in Sim-handle-only scenarios; non-trivial = >=1 message held; distinct = digest of (actions, traffic, receive log)",
+        rule: "random scenarios: 2-4 hosts, periodic + burst UDP and TCP connect+record probes per ordered pair, 1-8 hold/release calls by name/regex from the Sim handle between steps or from host code, fixed and ranged latencies; plus every permutation (one manual SentRef::deliver per step) and every subset (one batch) of <=4 held datagrams; Sim::links snapshot before every between-step point, after every action and between manual deliveries in Sim-handle-only scenarios; a directed family where a TCP record for an already closed socket is handed over by hand during a hold (the stack's RST must be listed, held, and arrive once after the release); non-trivial = >=1 message held; distinct = digest of (actions, traffic, receive log)",
         assumptions: vec![
             "fail_rate = 0; partitions never mixed with holds (documented unsupported)".into(),
             "messages whose maturity relative to a hold call cannot be decided are skipped (undetermined_skipped)".into(),
             "capacities exceed the number of held messages, receivers drain continuously".into(),
         ],
         min_distinct: 100,
-        required_counters: vec!["udp_held", "syn_held", "tcpdata_held", "fin_held", "release_groups_multi", "manual_deliveries", "links_listed_messages", "unheld_window_checks", "host_code_calls"],
+        required_counters: vec!["udp_held", "syn_held", "tcpdata_held", "fin_held", "release_groups_multi", "manual_deliveries", "links_listed_messages", "unheld_window_checks", "host_code_calls", "links_snapshots_right_after_an_action", "orphan_segments_delivered_by_hand", "stack_replies_listed_while_held", "stack_replies_kept_back_by_the_hold", "stack_replies_delivered_after_release"],
     }
 }
